@@ -109,3 +109,25 @@ pub mod k {
         i.is_deleted.store(true, Ordering::Release);
     }
 }
+
+// ---------------------------------------------------------------- (E) error discipline
+pub mod e {
+    use super::*;
+
+    pub fn bad_swallow(p: &Path) -> std::io::Result<()> {
+        let _ = std::fs::remove_file(p);
+        if let Err(e) = fsync_directory(p) {
+            eprintln!("sync failed: {e}");
+        }
+        Ok(())
+    }
+
+    pub fn good_propagate(p: &Path) -> std::io::Result<()> {
+        fsync_directory(p)?;
+        if let Err(e) = std::fs::remove_file(p) {
+            eprintln!("unlink failed: {e}");
+            return Err(e);
+        }
+        std::fs::remove_file(p)
+    }
+}
